@@ -26,10 +26,18 @@ type writeShape struct {
 	nonObj bool              // some write is not to such an object
 	cellObjs map[ssa.Value]bool // local allocations (escaped or not) written by direct stores
 	nonCell  bool               // some write is not a direct store into a local allocation
+	// field arrays only: where the written structs live - embedded as one of these fields of an enclosing struct,
+	// as slice/array elements, as objects of their own, as the target of one of these parameters (resolved at the
+	// call sites), or anywhere
+	efids   map[int]bool
+	eelem   bool
+	eobj    bool
+	eany    bool
+	eparams map[*ssa.Parameter]bool
 }
 
 func newShape() *writeShape {
-	return &writeShape{fids: map[int]bool{}, roots: map[ssa.Value]bool{}, objs: map[ssa.Value]bool{}, cellObjs: map[ssa.Value]bool{}}
+	return &writeShape{fids: map[int]bool{}, roots: map[ssa.Value]bool{}, objs: map[ssa.Value]bool{}, cellObjs: map[ssa.Value]bool{}, efids: map[int]bool{}, eparams: map[*ssa.Parameter]bool{}}
 }
 
 func (s *writeShape) merge(o *writeShape) bool {
@@ -54,6 +62,27 @@ func (s *writeShape) merge(o *writeShape) bool {
 	}
 	if o.nonObj && !s.nonObj {
 		s.nonObj, ch = true, true
+	}
+	for f := range o.efids {
+		if !s.efids[f] {
+			s.efids[f] = true
+			ch = true
+		}
+	}
+	for q := range o.eparams {
+		if !s.eparams[q] {
+			s.eparams[q] = true
+			ch = true
+		}
+	}
+	if o.eelem && !s.eelem {
+		s.eelem, ch = true, true
+	}
+	if o.eobj && !s.eobj {
+		s.eobj, ch = true, true
+	}
+	if o.eany && !s.eany {
+		s.eany, ch = true, true
 	}
 	for r := range o.cellObjs {
 		if !s.cellObjs[r] {
@@ -80,6 +109,7 @@ type modset struct {
 	real    map[string]*writeShape // writes to objects that may pre-exist the call
 	fresh   map[string]bool        // keys written (only) at objects allocated inside
 	unknown []string               // calls that could not be resolved
+	spawns  bool                   // starts goroutines (whose effects are not part of the summary)
 }
 
 func newModset() *modset {
@@ -110,6 +140,10 @@ func (m *modset) merge(o *modset) bool {
 			m.fresh[k] = true
 			ch = true
 		}
+	}
+	if o.spawns && !m.spawns {
+		m.spawns = true
+		ch = true
 	}
 	for _, u := range o.unknown {
 		found := false
@@ -153,6 +187,26 @@ func (m *modset) String() string {
 		}
 		if s.any {
 			sh = append(sh, "any")
+		}
+		if strings.HasPrefix(k, "F_") {
+			var es []string
+			for _, f := range sortedInts(s.efids) {
+				es = append(es, fmt.Sprintf("in-f%d", f))
+			}
+			for q := range s.eparams {
+				es = append(es, "in-@"+q.Name())
+			}
+			sort.Strings(es)
+			if s.eelem {
+				es = append(es, "in-elem")
+			}
+			if s.eobj {
+				es = append(es, "in-obj")
+			}
+			if s.eany {
+				es = append(es, "in-any")
+			}
+			sh = append(sh, es...)
 		}
 		parts = append(parts, k+"{"+strings.Join(sh, ",")+"}")
 	}
@@ -456,6 +510,21 @@ func (ma *modAnalysis) recordStore(ms *modset, st *ssa.Store, addr ssa.Value, t 
 				continue
 			}
 			sh := ms.shape(key)
+			if strings.HasPrefix(key, "F_") {
+				// where does the struct holding this field live?
+				switch {
+				case len(lf.fids) >= 2:
+					sh.efids[lf.fids[len(lf.fids)-2]] = true
+				case len(lf.fids) == 1:
+					ma.embedding(sh, addr, 0)
+				default:
+					if fa, ok := addr.(*ssa.FieldAddr); ok {
+						ma.embedding(sh, fa.X, 0)
+					} else {
+						sh.eany = true
+					}
+				}
+			}
 			if localObj {
 				sh.objs[root] = true
 			} else {
@@ -477,6 +546,33 @@ func (ma *modAnalysis) recordStore(ms *modset, st *ssa.Store, addr ssa.Value, t 
 				sh.any = true
 			}
 		}
+	}
+}
+
+// embedding classifies the address v of a struct by the last step of its path.
+func (ma *modAnalysis) embedding(sh *writeShape, v ssa.Value, depth int) {
+	if depth > 6 {
+		sh.eany = true
+		return
+	}
+	switch x := v.(type) {
+	case *ssa.FieldAddr:
+		st := x.X.Type().Underlying().(*types.Pointer).Elem()
+		sh.efids[ma.w.fieldID(st, x.Field)] = true
+	case *ssa.IndexAddr:
+		sh.eelem = true
+	case *ssa.Alloc:
+		sh.eobj = true
+	case *ssa.Parameter:
+		sh.eparams[x] = true
+	case *ssa.Phi:
+		for _, e := range x.Edges {
+			ma.embedding(sh, e, depth+1)
+		}
+	case *ssa.ChangeType:
+		ma.embedding(sh, x.X, depth+1)
+	default:
+		sh.eany = true
 	}
 }
 
@@ -520,6 +616,11 @@ func (ma *modAnalysis) callees(call *ssa.CallCommon) (fns []*ssa.Function, unkno
 	case *ssa.Builtin:
 		return nil, ""
 	}
+	if sig, ok := call.Value.Type().Underlying().(*types.Signature); ok {
+		if cands, complete := ma.w.funcValueCandidates(sig); complete && len(cands) > 0 {
+			return cands, ""
+		}
+	}
 	return nil, "dynamic call " + call.Value.Name()
 }
 
@@ -538,6 +639,19 @@ func (ma *modAnalysis) mergeCallee(ms *modset, cs *modset, call *ssa.CallCommon,
 		if strings.HasPrefix(k, "H_") || strings.HasPrefix(k, "F_") {
 			sh.nonObj = true
 			sh.nonCell = true
+		}
+		for f := range s.efids {
+			sh.efids[f] = true
+		}
+		sh.eelem = sh.eelem || s.eelem
+		sh.eobj = sh.eobj || s.eobj
+		sh.eany = sh.eany || s.eany
+		for q := range s.eparams {
+			if idx := paramIndex(q); idx >= 0 && idx < len(args) && !call.IsInvoke() {
+				ma.embedding(sh, args[idx], 0)
+			} else {
+				sh.eany = true // (the receiver of an interface call is an interface value, not an address we can classify)
+			}
 		}
 		for r := range s.roots {
 			p, ok := r.(*ssa.Parameter)
@@ -569,6 +683,9 @@ func (ma *modAnalysis) mergeCallee(ms *modset, cs *modset, call *ssa.CallCommon,
 	}
 	for _, u := range cs.unknown {
 		ms.unknown = append(ms.unknown, u)
+	}
+	if cs.spawns {
+		ms.spawns = true
 	}
 }
 
@@ -608,6 +725,14 @@ func (ma *modAnalysis) region(fn *ssa.Function, in map[*ssa.BasicBlock]bool) *mo
 					ms.shape("G_sent").any = true
 					ms.shape("G_sent").nonCell = true
 				}
+				if _, ok := ma.w.db.Ghosts["lastSent"]; ok {
+					ms.shape("G_lastSent").any = true
+					ms.shape("G_lastSent").nonCell = true
+				}
+			case *ssa.Go:
+				// a spawned goroutine runs on objects handed over to it (ownership discipline, C13 `moves`/`owned`):
+				// its writes are not effects of the spawning call as seen by the spawner's sequential reasoning
+				ms.spawns = true
 			case ssa.CallInstruction:
 				call := x.Common()
 				if b, ok := call.Value.(*ssa.Builtin); ok {
